@@ -17,7 +17,11 @@ least-derived template.  The spec renders
   already extended, or that names a missing template, is an error,
 * `include` as "the first existing template of the list, rendered as an inheritance chain of its
   own on the includer's frames" (`ignore missing` only matters when no name exists; errors inside
-  are wrapped in `BadInclude`),
+  are wrapped in `BadInclude`); the one thing of the includer's block machinery that reaches
+  into the included template is the *name* of the block the tag stands in
+  (`state.current_block`): `super()` outside of blocks in the included chain is `super()` of
+  that name among the included chain's own definitions (an error unless the included chain
+  defines it at least twice),
 * `import` / `from … import` as such an include into a fresh frame whose locals become the
   module / the imported value,
 * loops, `{% autoescape %}` blocks and macro calls by running their bodies (macro: fresh frames,
@@ -43,8 +47,10 @@ structure SpecCbs where
   /-- a statement list inside the current definition (loop / macro bodies):
       `D cur disc ext outer ae items frames` -/
   list : (Nat → List (List Item)) → Option (Nat × Nat) → Bool → Bool → Nat → AE → List Item → Vars → SRes
-  /-- the layout of the last template of `chain`, then its parents: `chain disc outer ae layout frames` -/
-  chain : List Nat → Bool → Nat → AE → List Item → Vars → SRes
+  /-- the layout of the last template of `chain`, then its parents:
+      `chain inh disc outer ae layout frames`; `inh` = the name of the block the include tag
+      stands in (`state.current_block` is handed into an included template) -/
+  chain : List Nat → Option Nat → Bool → Nat → AE → List Item → Vars → SRes
 
 /-- the block table entry of template `i` for block `n` -/
 def blockOf (env : Env) (i n : Nat) : Option (List Item) :=
@@ -83,13 +89,25 @@ def specSuper (cbs : SpecCbs) (D : Nat → List (List Item)) (cur : Option (Nat 
         | .ok (o, fs') => .ok (o, fs'.take fs.length)
     else .error [.invalidOperation]
 
-/-- include: the first existing template, as a chain of its own, on the includer's frames -/
-def specInclude (env : Env) (cbs : SpecCbs) (disc ign : Bool) (outer : Nat) :
-    List Nat → Bool → Vars → SRes
+/-- what the property calls "the named template (or the first existing one of a list)": a value
+    that can be iterated *is* the list of what it yields — whatever kind of object carries the
+    names (list, tuple, lazily evaluated iterable, one-shot iterator, the keys of a map) —;
+    anything else is one name.  No table, no filter. -/
+def Arg.cands : Arg → List Cand
+  | .single c => [c]
+  | .object _ (some items) => items
+  | .object _ none => [none]
+
+/-- include: the first existing template of the candidates, as a chain of its own, on the
+    includer's frames; a candidate that is not a string is an error where it is reached; when no
+    candidate exists and at least one was asked for, `TemplateNotFound` unless `ignore missing` -/
+def specInclude (env : Env) (cbs : SpecCbs) (inh : Option Nat) (disc ign : Bool) (outer : Nat) :
+    List Cand → Bool → Vars → SRes
   | [], tried, fs => if tried && !ign then .error [.templateNotFound] else .ok ([], fs)
-  | t :: rest, _, fs =>
+  | none :: _, _, _ => .error [.invalidOperation]
+  | some t :: rest, _, fs =>
     match env[t]? with
-    | none => specInclude env cbs disc ign outer rest true fs
+    | none => specInclude env cbs inh disc ign outer rest true fs
     | some T =>
       -- a name that exists but cannot be loaded is an error of its own kind, `ignore missing`
       -- or not; only a missing name lets the next one be tried
@@ -101,7 +119,7 @@ def specInclude (env : Env) (cbs : SpecCbs) (disc ign : Bool) (outer : Nat) :
         -- the included file runs in the includer's frame, but with the frame's closure detached:
         -- what it assigns does not reach the includer's macros, and its own macros get a closure
         -- of their own; afterwards the includer's closure is attached again
-        match cbs.chain [t] disc (outer + INCLUDE_COST) T.ae T.layout (fs.setTopClosure none) with
+        match cbs.chain [t] inh disc (outer + INCLUDE_COST) T.ae T.layout (fs.setTopClosure none) with
         | .error e => .error (.badInclude :: e)
         | .ok (o, fs') => .ok (o, (fs'.take fs.length).setTopClosure fs.topClosure)
 
@@ -145,18 +163,18 @@ def specItems (env : Env) (rootCtx : Cfg) (cbs : SpecCbs) (D : Nat → List (Lis
       if !exec then cont (.ok ([], fs))
       else if ext then .error [.invalidOperation]
       else .error [.unsupported]
-    | .incl names ign => cont (specInclude env cbs disc ign outer names false fs)
-    | .importAs t v =>
+    | .incl a ign => cont (specInclude env cbs (cur.map Prod.fst) disc ign outer a.cands false fs)
+    | .importAs a v =>
       if pushFails outer fs then .error [.invalidOperation]
       else
-        match specInclude env cbs false false outer [t] false (fs.push [[]]) with
+        match specInclude env cbs (cur.map Prod.fst) false false outer a.cands false (fs.push [[]]) with
         | .error e => .error e
         | .ok (_, fs') =>
           cont (.ok ([], store (fs'.take fs.length) v (.module (dedupKeys (topFrame fs')))))
-    | .fromImport t name alias =>
+    | .fromImport a name alias =>
       if pushFails outer fs then .error [.invalidOperation]
       else
-        match specInclude env cbs true false outer [t] false (fs.push [[]]) with
+        match specInclude env cbs (cur.map Prod.fst) true false outer a.cands false (fs.push [[]]) with
         | .error e => .error e
         | .ok (_, fs') =>
           cont (.ok ([], store (fs'.take fs.length) alias ((lookupVal name (topFrame fs')).getD .undef)))
@@ -179,7 +197,7 @@ def specItems (env : Env) (rootCtx : Cfg) (cbs : SpecCbs) (D : Nat → List (Lis
           | .ok (o, _) => cont (.ok (if disc then [] else o, fs1))
     | .badTarget => .error [.invalidOperation]
     | .autoesc m body =>
-      if body.any isExtends || body.any isAutoesc then .error [.unsupported]
+      if body.any isExtends || decide (AE_NEST_MAX ≤ aeDepthL body) then .error [.unsupported]
       else cont (cbs.list D cur disc ext outer m body fs)
     | it =>
       match varItem rootCtx disc ae it fs with
@@ -202,13 +220,16 @@ def hasExecExtends : List Item → Bool
   | _ :: rest => hasExecExtends rest
 
 /-- the layout of the last template of `chain` (most-derived first), then its parents -/
-def specChain (env : Env) (rootCtx : Cfg) (cbs : SpecCbs) (chain : List Nat) (disc : Bool)
+def specChain (env : Env) (rootCtx : Cfg) (cbs : SpecCbs) (chain : List Nat) (inh : Option Nat) (disc : Bool)
     (outer : Nat) (ae : AE) (layout : List Item) (fs : Vars) : SRes :=
   let D := defs env chain
+  -- outside of blocks `super()` refers to the block the include tag stands in, looked up among
+  -- the definitions of *this* chain, as if the layout were its most-derived definition
+  let cur := inh.map (fun n => (n, 0))
   match splitExtends layout with
-  | none => specItems env rootCtx cbs D none disc false outer ae layout fs
+  | none => specItems env rootCtx cbs D cur disc false outer ae layout fs
   | some (pre, t, post) =>
-    match specItems env rootCtx cbs D none disc false outer ae pre fs with
+    match specItems env rootCtx cbs D cur disc false outer ae pre fs with
     | .error e => .error e
     | .ok (o, fs1) =>
       if t ∈ chain.tail then .error [.invalidOperation]
@@ -219,10 +240,10 @@ def specChain (env : Env) (rootCtx : Cfg) (cbs : SpecCbs) (chain : List Nat) (di
           match T.loadErr with
           | some k => .error [loadErrKind t k]
           | none =>
-          match specItems env rootCtx cbs (defs env (chain ++ [t])) none true true outer ae post fs1 with
+          match specItems env rootCtx cbs (defs env (chain ++ [t])) cur true true outer ae post fs1 with
           | .error e => .error e
           | .ok (o2, fs2) =>
-            match cbs.chain (chain ++ [t]) disc outer ae T.layout fs2 with
+            match cbs.chain (chain ++ [t]) inh disc outer ae T.layout fs2 with
             | .error e => .error e
             | .ok (o3, fs3) => .ok (o ++ o2 ++ o3, fs3)
 
@@ -231,7 +252,7 @@ def specAll (env : Env) (rootCtx : Cfg) : Nat → SpecCbs
   | 0 =>
     { body := fun _ _ _ _ _ _ _ => .error [.recursion],
       list := fun _ _ _ _ _ _ _ _ => .error [.recursion],
-      chain := fun _ _ _ _ _ _ => .error [.recursion] }
+      chain := fun _ _ _ _ _ _ _ => .error [.recursion] }
   | fuel + 1 =>
     { body := fun D n k disc outer ae fs =>
         match (D n)[k]? with
@@ -239,8 +260,8 @@ def specAll (env : Env) (rootCtx : Cfg) : Nat → SpecCbs
         | some b => specItems env rootCtx (specAll env rootCtx fuel) D (some (n, k)) disc false outer ae b fs,
       list := fun D cur disc ext outer ae items fs =>
         specItems env rootCtx (specAll env rootCtx fuel) D cur disc ext outer ae items fs,
-      chain := fun chain disc outer ae layout fs =>
-        specChain env rootCtx (specAll env rootCtx fuel) chain disc outer ae layout fs }
+      chain := fun chain inh disc outer ae layout fs =>
+        specChain env rootCtx (specAll env rootCtx fuel) chain inh disc outer ae layout fs }
 
 def specRender (env : Env) (rootCtx : Cfg) (fuel : Nat) (main : Nat) : Except Err (List String) :=
   match env[main]? with
@@ -249,32 +270,35 @@ def specRender (env : Env) (rootCtx : Cfg) (fuel : Nat) (main : Nat) : Except Er
     match T.loadErr with
     | some k => .error [loadErrKind main k]
     | none =>
-    match (specAll env rootCtx fuel).chain [main] false 0 T.ae T.layout Vars.init with
+    match (specAll env rootCtx fuel).chain [main] none false 0 T.ae T.layout Vars.init with
     | .error e => .error e
     | .ok (o, _) => .ok o
 
 /-- fuel that suffices for everything nested below depth `d` in an environment of `E`
     templates (see `MJ.C06.rendering_terminates`) -/
-def W (E d : Nat) : Nat := (LIMIT + 1 - d) * (E + 3)
+def W (E d : Nat) : Nat := (LIMIT + 1 - d) * (E + 3 + AE_NEST_MAX)
 
 /-- the fuel the line driver runs with: with this much the model's fuel is provably never the
     reason a render stops -/
-def renderFuel (env : Env) : Nat := W env.length 2 + env.length + 2
+def renderFuel (env : Env) : Nat := W env.length 2 + env.length + 2 + AE_NEST_MAX
 
 /-! ## the fragment for which driver = spec is proved -/
 
 mutual
-/-- `cur` = the block whose body this is; `blk` = block references allowed (not in macros) -/
+/-- `cur` = the block whose body this is (a macro body counts as part of the block body that
+    contains it: a macro call keeps the block table and its cursors — `BlockState::Isolate` only
+    restores them afterwards); `blk` = block references allowed.  `super()` may stand anywhere:
+    in a block body it is the next definition up, in a macro body it is an error (no current
+    block), at the top level of a template it refers to the block the including tag stands in. -/
 def itemOK (cur : Option Nat) (blk : Bool) : Item → Bool
   | .callBlock m | .setSelf _ m =>
     blk && (match cur with
       | some n => decide (n < m)
       | none => true)
-  | .super | .setSuper _ => cur.isSome
   | .extends exec _ => !exec
   | .loop _ _ body => itemsOK cur blk body
   | .autoesc _ body => itemsOK cur blk body
-  | .inMacro _ _ _ body => itemsOK none false body
+  | .inMacro _ _ _ body => itemsOK cur blk body
   | _ => true
 def itemsOK (cur : Option Nat) (blk : Bool) : List Item → Bool
   | [] => true
